@@ -10,7 +10,7 @@ use std::time::Duration;
 
 pub static PROP: Prop = Prop {
     id: "C01",
-    rule: "cases: (b) token soup: 0-60 fragments from 14 character/token classes (operator characters and spellings, delimiters, digit runs with . e E + -, balanced and unbalanced quotes, ; , whitespace, names, keywords, 2/3/4-byte scalars, other first characters, odd whitespace), glued without separator 3/4 of the time, plus corrupted valid programs, plus the operator x edge-palette programs of C04, all in the dev AND the release build (paired shards); each input goes through parse_expression, execute (empty context) and, for every Ok(ast), expr(), describe() and drop, under catch_unwind; (c) depth classes: for each recursive construct (paren, bracket, brace-map, call, prefix -, prefix not, conditional then-nest and else-nest, left infix chain, right assignment chain, identifier run, statements, a whitespace run at one token boundary, unclosed openers, prefix over parenthesised infix, postfix over parens, list-in-map-in-call mix, `not OP` chain) and each depth of a ladder (1..48 dense, 64, 100, 300, 1000, 3000, 10000; 10^5 and 10^6 for the iteratively handled constructs [thorough: 2000, 5000, 30000, 100000 for all]) one child process per (construct, depth, build profile dev/release) runs parse -> expr -> describe -> exec -> drop on the main thread (8 MiB stack) under a 30 s watchdog. Any panic, any abort (signal) and any reproducible watchdog expiry is a failure; depth <= 1000 must never abort. Non-trivial: the input contains a non-ASCII scalar, or an unterminated/mismatched construct, or nesting/chain depth >= 8; distinct by input hash (soup) / (construct, depth, profile) (ladder).",
+    rule: "cases: (b) token soup: 0-60 fragments from 14 character/token classes (operator characters and spellings, delimiters, digit runs with . e E + -, balanced and unbalanced quotes, ; , whitespace, names, keywords, 2/3/4-byte scalars, other first characters, odd whitespace), glued without separator 3/4 of the time, plus corrupted valid programs, plus the operator x edge-palette programs of C04 (binary, compound, prefix/postfix and min/max/sum/mul forms), all in the dev AND the release build (paired shards); each input goes through parse_expression, execute (empty context) and, for every Ok(ast), expr(), describe() and drop, under catch_unwind; (c) depth classes: for each recursive construct (paren, bracket, brace-map, call, prefix -, prefix not, conditional then-nest and else-nest, left infix chain, right assignment chain, identifier run, statements, a whitespace run at one token boundary, unclosed openers, prefix over parenthesised infix, postfix over parens, list-in-map-in-call mix, `not OP` chain) and each depth of a ladder (1..48 dense, 64, 100, 300, 1000, 3000, 10000; 10^5 and 10^6 for the iteratively handled constructs [thorough: 2000, 5000, 30000, 100000 for all]) one child process per (construct, depth, build profile dev/release) runs parse -> expr -> describe -> exec -> drop on the main thread (8 MiB stack) under a 30 s watchdog. Context functions that use the context they are evaluated in (every bare-name / call position of C14, two actions) run through C14's scenario runner. Any panic, any abort (signal) and any reproducible watchdog expiry is a failure; depth <= 1000 must never abort. Non-trivial: the input contains a non-ASCII scalar, or an unterminated/mismatched construct, or nesting/chain depth >= 8; distinct by input hash (soup) / (construct, depth, profile) (ladder).",
     assumptions: &[
         "termination is decided by a 30 s watchdog in a child process (normal run time is milliseconds); an expiry must reproduce twice to count, otherwise the run is inconclusive (exit 2)",
         "stack exhaustion is judged on the default 8 MiB main-thread stack in both build profiles",
@@ -363,6 +363,33 @@ fn fixed(env: &Env, st: &mut Stats) -> CaseResult {
                     check_text(&format!("{} {} {}", a, op, b), st)?;
                     check_text(&format!("x = {} ; x {}= {}", a, op, b), st)?;
                 }
+            }
+        }
+        for a in crate::props::c04::PALETTE {
+            for b in crate::props::c04::PALETTE {
+                j += 1;
+                if (j % pairs as u64) as usize != pair {
+                    continue;
+                }
+                st.eval();
+                for f in ["min", "max", "sum", "mul"] {
+                    check_text(&format!("{}({} , {})", f, a, b), st)?;
+                    check_text(&format!("{}({} , {} , (- 5))", f, a, b), st)?;
+                }
+                check_text(&format!("[{} ++ , {} -- , - {} , min() , sum() , {} beginWith {}]", a, a, b, a, b), st)?;
+            }
+        }
+    }
+    // "execute ... never fails to terminate" also when the context's own functions use the context
+    // they are evaluated in: C14's scenario runner, one child per handler kind
+    for (k, kind) in crate::props::c14::KINDS.iter().enumerate() {
+        if kind.starts_with("ctx-function") && env.mine(900 + k as u64) {
+            st.hist("context-function-uses-its-context");
+            for action in ["execute-same-context-read", "lock-context-handle"] {
+                crate::props::c14::run_case(&[*kind], action, env, st).map_err(|mut f| {
+                    f.detail = format!("(re-entrant context function, replay with ./check C14 --replay) {}", f.detail);
+                    f
+                })?;
             }
         }
     }
